@@ -111,6 +111,26 @@ func raceRounds(c Case, s *hx.Sink) {
 			s.DirectViolation(c.ID, "Get after PutMany does not return the record written last", map[string]any{"round": round})
 			return
 		}
+		if round%16 == 3 {
+			// much later (any periodic housekeeping of the store has had its chance) another write, of another key: the
+			// record rewritten with the later expiration is still there
+			time.Sleep(130 * time.Millisecond)
+			if _, err := st.Put(ctx, kvs.Record{Key: "other", Value: []byte("o")}); err != nil {
+				s.DirectViolation(c.ID, "race stream: Put failed", err.Error())
+				return
+			}
+			if _, err := st.Create(ctx, kvs.Record{Key: "other2", Value: []byte("o")}); err != nil {
+				s.DirectViolation(c.ID, "race stream: Create failed", err.Error())
+				return
+			}
+			got, err := st.Get(ctx, "k")
+			if err != nil || string(got.Value) != "new" || got.ExpiresAt == nil || !got.ExpiresAt.Equal(far) {
+				s.DirectViolation(c.ID, "a record whose expiration lies one hour in the future was dropped by a later write of another key",
+					map[string]any{"round": round, "get": kvx.Class(err)})
+				return
+			}
+			s.Count("race:later-write-of-another-key")
+		}
 	}
 }
 
@@ -363,6 +383,9 @@ func main() {
 				r := prng.New(fl.Seed, "C06A", idx)
 				if exp == "1h" && r.Chance(1, 3) {
 					exp = prng.Pick(r, []string{"y9999", "y2400"}) // an expiration in the far future is in the future
+				}
+				if exp == "-1h" && r.Chance(1, 3) {
+					exp = prng.Pick(r, []string{"zero", "epoch"}) // time.Time{} and time.Unix(0,0) lie in the past, too
 				}
 				var ops []kvx.Op
 				ops = append(ops, writeOp(r, "b", prng.Pick(r, []string{"-1h", "1h", ""}))...)
